@@ -353,12 +353,24 @@ struct forest
       for (ltree const &x : fcppt::container::tree::make_pre_order(mapped))
         for (ltree const &c : x)
           if (!c.parent().has_value() || &c.parent().get_unsafe().get() != &x) ok = false;
+      // shape: the result has the shape of the operand (which may be an inner node), node by node
+      if (ok) ok = same_shape_mapped(mapped, m);
       if (!ok)
       {
         fail("tree|map|result", "map of " + show(m) + " has wrong values, shape or parent links");
         return false;
       }
     }
+    return true;
+  }
+
+  static bool same_shape_mapped(ltree const &r, M const &m)
+  {
+    if (r.value() != static_cast<long>(m.v) * 2 + 1) return false;
+    if (static_cast<std::size_t>(std::distance(r.begin(), r.end())) != m.kids.size()) return false;
+    std::size_t i = 0;
+    for (ltree const &c : r)
+      if (!same_shape_mapped(c, m.kids[i++])) return false;
     return true;
   }
 
